@@ -1252,6 +1252,19 @@ fn vq_c14_tp_block_server_only_stateless_reset_token() {
     // a token that is not "a sequence of 16 bytes"
     b2[1] = 15;
     assert!(ServerTransportParameters::decode_parameters(DecoderBuffer::new(&b2[..17])).is_err(), "C14/decode_parameters/server_stateless_reset_token_of_15_bytes_rejected");
+    // the role check does not depend on the body: an (ill-formed) empty body of any server-only parameter is
+    // rejected from a client as well
+    let e0 = [0x00u8, 0];
+    let e2 = [0x02u8, 0];
+    let e13 = [0x0du8, 0];
+    let e16 = [0x10u8, 0];
+    assert!(
+        ClientTransportParameters::decode_parameters(DecoderBuffer::new(&e0[..])).is_err()
+            && ClientTransportParameters::decode_parameters(DecoderBuffer::new(&e2[..])).is_err()
+            && ClientTransportParameters::decode_parameters(DecoderBuffer::new(&e13[..])).is_err()
+            && ClientTransportParameters::decode_parameters(DecoderBuffer::new(&e16[..])).is_err(),
+        "C14/decode_parameters/client_server_only_parameter_with_empty_body_rejected"
+    );
     kani::cover!(body[0] != 0 && body[15] != 0, "reach:nonzero_body");
     kani::cover!(true, "reach:end");
 }
